@@ -1,0 +1,16 @@
+//go:build verif
+
+package vgirpc
+
+// TryState is State without waiting for the emitter's mutex: ok is false when
+// the mutex is currently held by another goroutine. The C39 harness reads the
+// drop counter and the closed flag through it so that a call sleeping with the
+// mutex held (a blocked enqueue, a close that waits for the drain under the
+// lock) cannot hang the harness.
+func (v *VerifAsyncEmitter) TryState() (dropped int64, closed bool, ok bool) {
+	if !v.a.mu.TryLock() {
+		return 0, false, false
+	}
+	defer v.a.mu.Unlock()
+	return v.a.dropped, v.a.closed, true
+}
